@@ -431,6 +431,12 @@ def cases(tier):
             # the queries depend on the structure, not on the wiring: a third of the wirings of the bigger
             # skeletons (every wiring in the thorough tier)
             out.append((desc, "asc", "query"))
+    for desc in design.shape_family(4 if tier == "thorough" else 3):
+        out.append((desc, "asc", "query"))
+        for ei in range(MAX_EDITS if tier == "thorough" else 12):
+            out.append((desc, "asc", "edit", ei))
+        for ei in range(24 if tier == "thorough" else 8):
+            out.append((desc, "asc", "undone", ei))
     for sk in design.SKELETONS:
         deep = design.SKELETONS[sk][2] == "thorough" and tier != "thorough"
         nd = len(design.SKELETONS[sk][0])
